@@ -460,6 +460,238 @@ def replay_states(states, extra):
     return {'n': n, 'keys': sorted(keys), 'bad': bad, 'drift': drifts, 'sample': sample, 'missing': sorted(missing)}
 
 
+# ------------------------------------------------------------------------------------------------ anticipated text
+# spec -> code for AnticipatedText: the class the student must see for a token string comes from the specification
+# (ExprGrammar / ExprEval through AnticipatedText!Anticipated), never from a run of the code under test.
+AT_TEXT = {'n2': '2', 'n0': '0', 'pct': '%', 'v': 'x_{0}', 'z': 'q_{x}', 'u': 'X_{0}', 'f': 'f', 'h': 'F',
+           'lp': '(', 'rp': ')', 'lb': '[', 'rb': ']', 'cm': ',', 'pl': '+', 'dv': '/', 'bs': '\\'}
+AT_WORDY = {'n2', 'n0', 'pct', 'v', 'z', 'u', 'f', 'h'}
+AT_NESTINGS = ['formula', 'matrix', 'singlelist', 'list', 'nested', 'sumgrader']
+
+
+def at_render(ids, z='q_{x}', spaced=False):
+    """TAB between tokens that would otherwise merge (spaces are deleted before lexing); `spaced` sprinkles blanks
+    where they cannot change the token sequence"""
+    parts = []
+    for j, i in enumerate(ids):
+        if j and i in AT_WORDY and ids[j - 1] in AT_WORDY:
+            parts.append(' \t ' if spaced else '\t')
+        elif j and spaced:
+            parts.append(' ')
+        parts.append(z if i == 'z' else AT_TEXT[i])
+    return (' ' if spaced else '') + ''.join(parts)
+
+
+AT_SPELL = {'fmt0': '{0}', 'fmtx': '{x}', 'pcts': '%s', 'pctmap': '%(a)s', 'bslash': 'a\\b', 'lbrace': '{', 'rbrace': '}',
+            'braces': '{}', 'pct': '%', 'nl': 'a\nb'}
+AT_AUTHOR_MSG = 'use {0} and {x}, or %s %(a)s, not a\\b\nsecond line'
+
+
+def at_other(sit, sp):
+    """an anticipated problem outside the formula language -> (grader, input, requirement)"""
+    from mitxgraders import IntervalGrader, SumGrader, SingleListGrader, StringGrader
+    t = AT_SPELL[sp]
+    if sit == 'intervalOpen':
+        return IntervalGrader(answers='[1,2]'), t[0] + '1,2]', 'single'
+    if sit == 'intervalClose':
+        return IntervalGrader(answers='[1,2]'), '[1,2' + t[-1], 'single'
+    if sit == 'sumVariable':
+        g = SumGrader(answers={'lower': '1', 'upper': '3', 'summand': 'n', 'summation_variable': 'n'},
+                      input_positions={'summand': 1, 'summation_variable': 2})
+        return g, ['n', t], 'either'
+    if sit == 'listBlank':
+        return SingleListGrader(answers=['a', 'b'], subgrader=StringGrader()), t + ', ', 'single'
+    if sit == 'listLength':
+        return SingleListGrader(answers=['a', 'b'], subgrader=StringGrader(), length_error=True), t + ',a,b', 'single'
+    if sit == 'stringPattern':
+        return StringGrader(answers='cat', validation_pattern='[a-z]+', invalid_msg=AT_AUTHOR_MSG), t, 'single'
+    if sit == 'stringShort':
+        return StringGrader(accept_any=True, min_length=30, explain_minimums='err'), t, 'single'
+    raise ValueError(sit)
+
+
+_AT = {}
+
+
+def at_graders():
+    """the scope of AnticipatedText as real graders: x_{0} for everybody, q_{x} for the author only, f(a) = a + 1"""
+    if _AT:
+        return _AT
+    from mitxgraders import FormulaGrader, MatrixGrader, SingleListGrader, ListGrader, SumGrader
+
+    def scope(cls=FormulaGrader, **k):
+        return cls(variables=['x_{0}', 'q_{x}'], instructor_vars=['q_{x}'], user_functions={'f': lambda a: a + 1},
+                   sample_from={'x_{0}': [5, 5], 'q_{x}': [3, 3]}, **k)
+    _AT['scope'] = scope
+    _AT['formula'] = scope(answers='x_{0}+2')
+    _AT['matrix'] = scope(MatrixGrader, answers='x_{0}+2', max_array_dim=2)
+    _AT['singlelist'] = SingleListGrader(answers=['x_{0}', '2'], delimiter=';', subgrader=scope())
+    _AT['list'] = ListGrader(answers=['2', 'x_{0}'], subgraders=scope())
+    _AT['nested'] = ListGrader(answers=[['x_{0}', '2'], '2'], grouping=[1, 1, 2], ordered=True,
+                               subgraders=[ListGrader(subgraders=scope()), scope()])
+    _AT['sumgrader'] = SumGrader(answers={'lower': '1', 'upper': '2', 'summand': 'x_{0}', 'summation_variable': 'n'},
+                                 input_positions={'summand': 1}, variables=['x_{0}'],
+                                 user_functions={'f': lambda a: a + 1}, sample_from={'x_{0}': [5, 5]})
+    return _AT
+
+
+def at_submissions(ids, want, echo, k):
+    """the concrete calls for one enumerated string -> [(label, grader, input, requirement)]"""
+    from mitxgraders import ListGrader, FormulaGrader
+    A = at_graders()
+    text = at_render(ids)
+    subs = [('formula', A['formula'], text, 'single')]
+    nest = AT_NESTINGS[1 + k % (len(AT_NESTINGS) - 1)] if (k // 5) % (2 if len(ids) <= 4 else 4) == 0 else None
+    if nest == 'matrix':
+        subs.append((nest, A[nest], text, 'single'))
+    elif nest == 'singlelist':
+        subs.append((nest, A[nest], (text + ';2') if k % 2 else ('2;' + text), 'single'))
+    elif nest == 'list':
+        subs.append((nest, A[nest], [text, '2'] if k % 2 else ['2', text], 'multi'))
+    elif nest == 'nested':
+        subs.append((nest, A[nest], [['2', text, '2'], [text, '2', '2'], ['x_{0}', '2', text]][k % 3], 'multi'))
+    elif nest == 'sumgrader' and 'z' not in ids:          # a sum has no instructor-only names; same classes otherwise
+        subs.append((nest, A[nest], text if k % 2 else [text], 'either'))
+    if 'z' in ids and want == 'UndefinedVariable':
+        # the other author-only names: the boxes of a list grader see each other as sibling_N, students do not
+        sib = at_render(ids, z='sibling_2')
+        g = ListGrader(answers=['x_{0}', '3'], ordered=True,
+                       subgraders=FormulaGrader(variables=['x_{0}'], user_functions={'f': lambda a: a + 1},
+                                                sample_from={'x_{0}': [5, 5]}))
+        subs.append(('sibling', g, [sib, '3'], 'multi'))
+    if echo:
+        # the student submits exactly what the author wrote as the answer (which may use the author-only name)
+        g = A['scope'](answers=text)
+        subs.append(('echo', g, text, 'single'))
+        subs.append(('echo-respaced', g, at_render(ids, spaced=True), 'single'))
+        g2 = A['scope'](answers=(text, {'expect': 'x_{0}', 'grade_decimal': 0.5}))
+        subs.append(('echo-two-answers', g2, text, 'single'))
+        sib = at_render(ids, z='sibling_2')
+        g3 = ListGrader(answers=[sib, '3'], ordered=True,
+                        subgraders=FormulaGrader(variables=['x_{0}'], user_functions={'f': lambda a: a + 1},
+                                                 sample_from={'x_{0}': [5, 5]}))
+        subs.append(('echo-sibling', g3, [sib, '3'], 'multi'))
+    return subs
+
+
+def replay_anticipated(states, extra):
+    from engine import repo
+    repo.activate()
+    fixtures()
+    limit = extra['alarm']
+    n = cases = 0
+    keys = set()
+    bad = []
+    sample = None
+    for st in states:
+        c, out = st['c'], st['out']
+        if c['kind'] == 'other':
+            g, inp, req = at_other(c['sit'], c['sp'])
+            ids = [c['sit'], c['sp']]
+            subs = [(c['sit'], g, inp, req)]
+        elif c['kind'] != 'case' or out['want'] == 'none':
+            continue
+        else:
+            ids = c['ids']
+            if (extra.get('hostile_only') or len(ids) > 4) and not any(t in ('v', 'z', 'u', 'bs', 'pct') for t in ids):
+                continue                   # plain spellings only: the domain of C03 (replayed up to 4 tokens in thorough)
+            k = sum((j + 1) * (sorted(AT_TEXT).index(t) + 1) for j, t in enumerate(ids))
+            subs = at_submissions(ids, out['want'], out['echo'], k)
+        cases += 1
+        for label, g, inp, req in subs:
+            res = spy_call(g, None, inp, limit)
+            n += 1
+            keys.add((label, out['sees'], out['want']))
+            broken = statement_check(False, req, inp, res)
+            got = type(res['exc']).__name__ if res['k'] == 'raise' else res['k']
+            if got != out['want']:
+                broken.append('anticipated-class-lost')
+            if sample is None and label != 'formula':
+                sample = {'tokens': ids, 'submitted': inp, 'to': label, 'spec_class': out['want'], 'observed': describe(res)}
+            for cls in broken:
+                if len(bad) < 40:
+                    bad.append({'class': cls, 'part': 'anticipated', 'tokens': ids, 'input': inp, 'to': label,
+                                'problem': out['sees'], 'spec_class': out['want'], 'observed': describe(res),
+                                'left_check': type(res['inner']).__name__ if res['inner'] is not None else 'nothing'})
+                else:
+                    bad.append(None)
+    return {'n': n, 'cases': cases, 'keys': sorted(keys), 'bad': bad, 'sample': sample}
+
+
+# ------------------------------------------------------------------------------------------------ shared objects
+def shared_chain(cfg, faults):
+    """objects 1..3 of ErrorChannelShared as real graders sharing their subgrader objects; the first box of a
+    submission selects what the leaf does"""
+    from mitxgraders import ListGrader
+    fx = fixtures()
+    table = {('E1', 'ok'): 1}
+    texts = {}
+    for i, f in enumerate(faults):
+        text = render_msg(f['msg'])
+        table[('E1', 'fault%d' % i)] = ('raise', make_exc(f['cls'], text))
+        texts[(f['cls'], tuple(f['msg']))] = 'fault%d' % i
+    leaf = fx['TableGrader'](answers='E1', table=table, debug=cfg[2])
+    inner = ListGrader(answers=['E1', 'E1'], subgraders=leaf, ordered=True, debug=cfg[1])
+    outer = ListGrader(answers=[['E1', 'E1'], ['E1', 'E1']], subgraders=inner, grouping=[1, 1, 2, 2], ordered=True,
+                       debug=cfg[0])
+    return [outer, inner, leaf], texts
+
+
+def replay_shared(states, extra):
+    from engine import repo
+    repo.activate()
+    fx = fixtures()
+    MITx = fx['MITxError']
+    limit, maxcalls = extra['alarm'], extra['maxcalls']
+    n = hists = 0
+    keys = set()
+    bad, drifts = [], []
+    for st in states:
+        if st['pc'] != 'idle' or len(st['hist']) != maxcalls:
+            continue
+        cfg, hist = st['cfg'], st['hist']
+        faults = []
+        for h in hist:
+            if h['inner']['k'] == 'raise' and [h['inner']['cls'], h['inner']['msg']] not in [[f['cls'], f['msg']] for f in faults]:
+                faults.append({'cls': h['inner']['cls'], 'msg': h['inner']['msg']})
+        objs, texts = shared_chain(cfg, faults)
+        hists += 1
+        trail = []
+        for pos, h in enumerate(hist):
+            o = h['o']
+            first = 'ok' if h['inner']['k'] == 'return' else texts[(h['inner']['cls'], tuple(h['inner']['msg']))]
+            boxes = 2 ** (3 - o)
+            inp = first if boxes == 1 else [first] + ['ok'] * (boxes - 1)
+            res = spy_call(objs[o - 1], None, inp, limit)
+            n += 1
+            trail.append({'object': o, 'debug_configured': cfg[o - 1], 'input': inp, 'observed': describe(res)})
+            keys.add((o, cfg[o - 1], pos, h['inner'].get('cls', 'return'), h['want'].get('cls', 'return')))
+            # judged against the CONFIGURED flag of the called object (hist[i].want)
+            broken = statement_check(cfg[o - 1], 'single' if boxes == 1 else 'multi', inp, res)
+            want = h['want']
+            if not cfg[o - 1] and not broken:
+                if (want['k'] == 'raise') != (res['k'] == 'raise'):
+                    broken.append('error-swallowed' if want['k'] == 'raise' else 'escape-outside-family')
+                elif want['k'] == 'raise' and type(res['exc']).__name__ != want['cls']:
+                    broken.append('class-not-kept' if h['inner']['fam'] else 'generic-message')
+            for cls in broken:
+                if len(bad) < 40:
+                    bad.append({'class': cls, 'part': 'shared', 'debug_flags': cfg, 'history': list(trail),
+                                'leaf_faults': faults,
+                                'call': pos + 1, 'spec': want.get('cls', 'return')})
+                else:
+                    bad.append(None)
+            if not broken and cfg[o - 1] and want['k'] == 'raise' and (res['k'] != 'raise' or type(res['exc']).__name__ != want['cls']):
+                if len(drifts) < 10:
+                    drifts.append('shared objects, debug on: model escapes %s, code %s' % (want['cls'], describe(res)))
+            now = [g.config['debug'] for g in objs]
+            if now != cfg and len(drifts) < 10:
+                drifts.append('shared objects: configured debug flags %s read %s after call %d of %s' % (
+                    cfg, now, pos + 1, [(t['object'], t['input']) for t in trail]))
+    return {'n': n, 'hists': hists, 'keys': sorted(keys), 'bad': bad, 'drift': drifts}
+
+
+
 # ------------------------------------------------------------------------------------------------ code -> spec
 FUNCS1 = ['sin', 'cos', 'tan', 'sec', 'csc', 'cot', 'sqrt', 'log10', 'log2', 'ln', 'exp', 'arccos', 'arcsin', 'arctan',
           'arcsec', 'arccsc', 'arccot', 'abs', 'fact', 'factorial', 'sinh', 'cosh', 'tanh', 'sech', 'csch', 'coth',
@@ -638,6 +870,17 @@ def real_graders(debug):
                                          subgraders=FormulaGrader(variables=['x']), debug=debug), 'multi', 3, None)
     G['list-sibling-chain'] = (ListGrader(answers=['sibling_2+1', 'sibling_3+1', '3'], ordered=True,
                                           subgraders=FormulaGrader(), debug=debug), 'multi', 3, None)
+    # objects used in two places at once: stand-alone (with the debug flag of this table) AND as the subgrader of a
+    # list grader that its author is debugging (debug=True whatever the table's flag: see CONFIGURED_DEBUG)
+    child = FormulaGrader(answers='2*x', variables=['x'], max_array_dim=1, debug=debug)
+    G['shared-child'] = (child, 'single', 0, None)
+    G['shared-parent'] = (ListGrader(answers=['2*x', 'x^2'], subgraders=child, ordered=True, debug=True), 'multi', 2, None)
+    leaf = form(answers='x+1', debug=debug)              # (own answers: it is also a stand-alone problem)
+    inner = ListGrader(answers=['1', 'x'], subgraders=leaf, debug=debug)
+    G['shared-leaf'] = (leaf, 'single', 0, None)
+    G['shared-inner'] = (inner, 'multi', 2, None)
+    G['shared-outer'] = (ListGrader(answers=[['1', 'x'], ['2', '3']], grouping=[1, 1, 2, 2], debug=True,
+                                    subgraders=inner), 'multi', 4, None)
     # unconfigured item graders: the answer is inferred from the expect value of every call (hostile as well)
     G['infer-formula'] = (form(debug=debug), 'single', 0, None)
     G['infer-numerical'] = (NumericalGrader(debug=debug), 'single', 0, None)
@@ -648,6 +891,10 @@ def real_graders(debug):
     G['infer-interval'] = (IntervalGrader(debug=debug), 'single', 0, None)
     G['infer-string'] = (StringGrader(validation_pattern='[a-z ]+', debug=debug), 'single', 0, None)
     return G
+
+
+CONFIGURED_DEBUG = {'shared-parent': True, 'shared-outer': True}      # debug flag these objects were built with
+PRELUDE = {'shared-child': 'shared-parent', 'shared-inner': 'shared-outer', 'shared-leaf': 'shared-outer'}
 
 
 SAFE_LIMITS = ['1', '5', '0', '-3', '10', '', ' ', 'a', 'n', 'x', '1.5', 'i', '1+i', 'infty', '-infty', '1/0', '[1,2]',
@@ -779,17 +1026,24 @@ def observe_chunk(items, extra):
                 if not isinstance(expect, str):
                     expect = '1'
                 expect = cap_items(expect)
+            prelude = None
+            if gid in PRELUDE:
+                # a history: first a submission to the debugging list problem that shares this object
+                prelude = cap_items(make_input(rng, PRELUDE[gid], G[False][PRELUDE[gid]], exprlib)[1])
             pair = {}
             for debug in (True, False):
                 g, req, boxes, delim = G[debug][gid]
+                if prelude is not None:
+                    spy_call(G[debug][PRELUDE[gid]][0], None, prelude, limit)
                 random.seed(seed * 1000003 + j)
                 np.random.seed((seed * 1000003 + j) % (2 ** 32))
                 res = spy_call(g, expect, inp, limit)
                 inner, out = outcome_record(res, inp)
                 pair[debug] = (res, inner)
                 recs.append({'ev': 'escape', 'id': 2 * (first + j) + (1 if debug else 2), 'cls': gid, 'cat': cat,
-                             'debug': debug, 'req': req, 'form': form, 'n': n, 'checked': res['entered'],
-                             'inferring': expect is not None, 'expect': expect,
+                             'debug': CONFIGURED_DEBUG.get(gid, debug), 'req': req, 'form': form, 'n': n,
+                             'checked': res['entered'], 'inferring': expect is not None, 'expect': expect,
+                             'after': prelude if prelude is None or _jsonable(prelude) else repr(prelude),
                              'inner': inner, 'outward': out, 'timed_out': res['k'] == 'timeout',
                              'observable': res['observable'],
                              'input': inp if isinstance(inp, (str, list)) and _jsonable(inp) else repr(inp)})
@@ -861,6 +1115,56 @@ def run(ctx):
                 b['kind'], b['form'], b['debug'], b['raised_inside'], b['at'], what))
     if not replayed:
         raise Machinery('no finished state was replayed')
+    # ---- spec -> code, second sentence of the statement: the anticipated class comes from the specification
+    d = os.path.join(ctx.scratch, 'anticipated')
+    ctx.tlc('graders/MC_AnticipatedText.tla', 'graders/MC_AnticipatedText_%s.cfg' % ctx.tier, dump=d, timeout=3000)
+    res = dump.parallel(d + '.dump', 'engine.adapters.c02', 'replay_anticipated',
+                        extra={'alarm': alarm, 'hostile_only': ctx.quick})
+    os.remove(d + '.dump')
+    anticipated = sum(part['n'] for part in res)
+    if not anticipated:
+        raise Machinery('no anticipated-text case was replayed')
+    for part in res:
+        ctx.traces_validated += part['n']
+        ctx.evaluations += part['n']
+        for k in part['keys']:
+            ctx.nontrivial.add(('anticipated',) + tuple(k))
+        if part['sample']:
+            ctx.sample(part['sample'], limit=8)
+        for b in part['bad']:
+            if b is not None:
+                ctx.violation(dict(b), 'anticipated problem %s in %r submitted to %s: the specification gives %s, edX '
+                                       'saw %s (check() raised %s)' % (b['problem'], b['input'], b['to'], b['spec_class'],
+                                                                       b['observed'], b['left_check']))
+    # ---- spec -> code, histories on shared objects
+    r = ctx.tlc('graders/MC_ErrorChannelShared.tla', 'graders/MC_ErrorChannelShared_norestore.cfg', must_hold=False,
+                timeout=1800)
+    if 'SameAsConfigured' not in r.violated:
+        raise Machinery('the no-restore design variant was expected to violate SameAsConfigured\n' + r.out[-1500:])
+    if not ctx.quick:
+        ctx.tlc('graders/MC_ErrorChannelShared.tla', 'graders/MC_ErrorChannelShared_finally.cfg', timeout=1800)
+    d = os.path.join(ctx.scratch, 'shared')
+    ctx.tlc('graders/MC_ErrorChannelShared.tla', 'graders/MC_ErrorChannelShared_%s.cfg' % ctx.tier, dump=d, timeout=3000)
+    res = dump.parallel(d + '.dump', 'engine.adapters.c02', 'replay_shared',
+                        extra={'alarm': alarm, 'maxcalls': 2 if ctx.quick else 3})
+    os.remove(d + '.dump')
+    shared_calls = sum(part['n'] for part in res)
+    if not shared_calls:
+        raise Machinery('no shared-object history was replayed')
+    for part in res:
+        ctx.traces_validated += part['hists']
+        ctx.evaluations += part['n']
+        for k in part['keys']:
+            ctx.nontrivial.add(('shared',) + tuple(k))
+        for x in part['drift']:
+            ctx.note_drift(x)
+        for b in part['bad']:
+            if b is not None:
+                last = b['history'][-1]
+                ctx.violation(dict(b), 'shared grader objects with debug flags %s: call %d (object %d, configured debug=%s, '
+                                       'input %r) after %s: the specification gives %s, edX saw %s' % (
+                                  b['debug_flags'], b['call'], last['object'], last['debug_configured'], last['input'],
+                                  [(t['object'], t['input']) for t in b['history'][:-1]], b['spec'], last['observed']))
     # ---- code -> spec
     from engine import repo
     repo.activate()
@@ -916,6 +1220,7 @@ def run(ctx):
         r = byid[i]
         if clause in PROPERTY_CLAUSES:
             sig = {'class': PROPERTY_CLAUSES[clause], 'grader': r['cls'], 'input': r['input'], 'debug': r['debug'],
+                   'after': r.get('after'),
                    'expect': r['expect'],
                    'category': r['cat'], 'inner': r['inner']['mro'][:1], 'outward': r['outward']['mro'][:1]}
             ctx.violation(sig, '%s on %s (debug=%s): inner %s, escaped %s [%s]' % (
@@ -927,6 +1232,8 @@ def run(ctx):
     ctx.extra['hostile_categories'] = cats
     ctx.extra['injected_classes'] = sorted(classes_reached)
     ctx.extra['bounds'] = {'tier': ctx.tier, 'alarm_seconds': alarm, 'fault_injection_cases': replayed,
+                           'anticipated_text_calls': anticipated, 'anticipated_token_strings_up_to': 4 if ctx.quick else 5,
+                           'shared_history_calls': shared_calls, 'shared_history_length': 2 if ctx.quick else 3,
                            'real_grader_cases': len(recs) // 2, 'runs': len(recs), 'bracket_depth_max': 2000,
                            'grader_configurations': len(real_graders(False))}
     ctx.assumptions += [
@@ -989,6 +1296,37 @@ def replay(ctx, rec):
         rej = traces.validate(ctx, 'graders/ErrorChannelTrace.tla', 'graders/ErrorChannelTrace.cfg', [meta])
         print('class tree verdict:', rej or 'accepted')
         return not any(v.startswith('family') for v in rej.values())
+    if sig.get('part') == 'anticipated':
+        if sig['tokens'][0] in ('intervalOpen', 'intervalClose', 'sumVariable', 'listBlank', 'listLength',
+                                'stringPattern', 'stringShort'):
+            g, inp, req = at_other(*sig['tokens'])
+            subs = [(sig['to'], g, inp, req)]
+        else:
+            ids = sig['tokens']
+            k = sum((j + 1) * (sorted(AT_TEXT).index(t) + 1) for j, t in enumerate(ids))
+            subs = [x for x in at_submissions(ids, sig['spec_class'], True, k) if x[0] == sig['to']] or \
+                   [(sig['to'], at_graders()['formula'], sig['input'], 'single')]
+        ok = True
+        for label, g, inp, req in subs:
+            res = spy_call(g, None, inp, 120)
+            got = type(res['exc']).__name__ if res['k'] == 'raise' else res['k']
+            print('%s <- %r: specification %s, escaped %s' % (label, inp, sig['spec_class'], short(describe(res))))
+            ok = ok and got == sig['spec_class'] and not statement_check(False, req, inp, res)
+        return ok
+    if sig.get('part') == 'shared':
+        cfg = sig['debug_flags']
+        # the faults of the history are recovered from the observed texts of the replay file
+        faults = sig.get('leaf_faults') or [{'cls': 'MissingInput', 'msg': ['w', 'NL', 'w']}, {'cls': 'ValueError', 'msg': ['w']}]
+        print('the leaf raises %s for fault0, fault1, ...' % [f['cls'] for f in faults])
+        objs, _ = shared_chain(cfg, faults)
+        ok = True
+        for t in sig['history']:
+            res = spy_call(objs[t['object'] - 1], None, t['input'], 120)
+            broken = statement_check(cfg[t['object'] - 1], 'single' if isinstance(t['input'], str) else 'multi', t['input'], res)
+            print('object %d (configured debug=%s) <- %r: %s %s' % (t['object'], cfg[t['object'] - 1], t['input'],
+                                                                    short(describe(res)), broken or ''))
+            ok = ok and not broken
+        return ok
     if 'grader' in sig:
         if not isinstance(sig['input'], (str, list)) or sig['grader'] not in real_graders(False):
             print('the input object of this case is not reproducible from its printed form')
